@@ -60,6 +60,13 @@ def generate(problems):
             single_test = _u(st.test)
         if isinstance(st, ast.If) and _u(st.test) == "fail_no_subcommand":
             fail_tests = [_u(x.test) for x in st.body if isinstance(x, ast.If)]
+    # the unknown-name check (fix 96e4fb9), since fix 456b357 a top-level statement BEFORE `if fail_no_subcommand:`
+    name_test, name_outside = "", False
+    top = [x for x in gs.body if isinstance(x, ast.If)]
+    for i, x in enumerate(top):
+        if "is not None" in _u(x.test) and "not in action._name_parser_map" in _u(x.test) and any(isinstance(y, ast.Raise) for y in x.body):
+            name_test = _u(x.test)
+            name_outside = any(_u(y.test) == "fail_no_subcommand" for y in top[i + 1:])
     ret = [_u(x.value) for x in ast.walk(gs) if isinstance(x, ast.Return) and x.value is not None]
     for label, v in (("subcommand_keys", keys_expr), ("explicit test", explicit_test), ("pick test", pick_test), ("pick index", pick_offset),
                      ("remove test", remove_test), ("single test", single_test)):
@@ -221,6 +228,8 @@ def generate(problems):
     body += "def removeFilter : String := %s\n" % lean_str(remove_filter or "")
     body += "def singleTest : String := %s\n" % lean_str(single_test or "")
     body += "def failTests : List String := %s\n" % lean_str_list(fail_tests)
+    body += "def nameTest : String := %s\n" % lean_str(name_test)
+    body += "def nameTestBeforeFailBlock : Bool := %s\n" % _bool(name_outside)
     body += "def returns : List String := %s\n" % lean_str_list(ret)
     body += "def layerCalls : List String := %s\n" % lean_str_list(layer)
     body += "def mergeCall : String := %s\n" % lean_str(merge_call or "")
